@@ -14,6 +14,10 @@
 #include <cstdio>
 #include <vector>
 int main() {
+#ifndef XENIUM_VERIF_HOOK_HMS_INC
+  printf("the hook between the two reads of cur->next in operator++ is not compiled in (units/hms/hook_f11.diff, -DMPOETER_XENIUM_VERIF)\n");
+  return 2;
+#else
   using set_t = xenium::harris_michael_list_based_set<int, xenium::policy::reclaimer<xenium::reclamation::epoch_based<>>>;
   for (int variant = 0; variant < 2; ++variant) {
     set_t s;
@@ -36,4 +40,5 @@ int main() {
   }
   printf("every key yielded once\n");
   return 0;
+#endif
 }
